@@ -38,6 +38,8 @@ Fixpoint strip_prefix (pre s : str) : option str :=
 Inductive base := BRoot | BCwd | BProcess.
 Record sites := {
   st_store_sep : bool;        (* filter_targets_from_store joins cwd and target with a '/' *)
+  st_store_empty_cwd : bool;  (* from a subdirectory, an EMPTY target list (remove, untrack pass Some(vec![])) means the
+                                 current directory, like no list; false: it stays empty and selects every path *)
   st_disk_sep : bool;         (* targets_from_disk does *)
   st_copy_dirdest : base;     (* second argument of XvcPath::new for "dest/" in copy *)
   st_move_dirdest : base;     (*   ... in move *)
@@ -116,6 +118,18 @@ Definition rebase_targets (sep : bool) (d : str) (ts : option (list str)) : opti
          Some (match ts with Some l => map (fun t => pre ++ t) l | None => [pre] end)
   end.
 
+(* filter_targets_from_store *)
+Definition rebase_targets_store (sep emptycwd : bool) (d : str) (ts : option (list str)) : option (list str) :=
+  match d with
+  | [] => ts
+  | _ => let pre := if sep then with_slash d else d in
+         Some (match ts with
+               | Some [] => if emptycwd then [pre] else []
+               | Some l => map (fun t => pre ++ t) l
+               | None => [pre]
+               end)
+  end.
+
 Section Resolve.
   Variable gms : list str -> str -> bool.    (* fast_glob::Glob built from the globs, is_match *)
   Variable is_dir : str -> bool.             (* the root-relative string names a directory on disk *)
@@ -146,7 +160,7 @@ Section Resolve.
     end.
   (* filter_targets_from_store *)
   Definition resolve_store (st : sites) (w : place) (ts : option (list str)) (stored : list str) : list str :=
-    match rebase_targets (st_store_sep st) (cwd w) ts with
+    match rebase_targets_store (st_store_sep st) (st_store_empty_cwd st) (cwd w) ts with
     | None => stored
     | Some gs => filter_by_globs stored gs
     end.
@@ -247,10 +261,10 @@ Definition rebase_args (d : str) (a : args) : args :=
 
 (* the sites as they were on the pinned tree (P6, P29), for the refutation witnesses *)
 Definition sites_pinned : sites :=
-  {| st_store_sep := false; st_disk_sep := true; st_copy_dirdest := BRoot; st_move_dirdest := BRoot;
+  {| st_store_sep := false; st_store_empty_cwd := false; st_disk_sep := true; st_copy_dirdest := BRoot; st_move_dirdest := BRoot;
      st_copy_filedest := BCwd; st_move_filedest := BCwd; st_disk_isdir := BProcess; st_disk_file := BProcess;
      st_track_isdir := BProcess; st_track_resolve := BCwd |}.
 Definition sites_fixed : sites :=
-  {| st_store_sep := true; st_disk_sep := true; st_copy_dirdest := BCwd; st_move_dirdest := BCwd;
+  {| st_store_sep := true; st_store_empty_cwd := true; st_disk_sep := true; st_copy_dirdest := BCwd; st_move_dirdest := BCwd;
      st_copy_filedest := BCwd; st_move_filedest := BCwd; st_disk_isdir := BRoot; st_disk_file := BRoot;
      st_track_isdir := BCwd; st_track_resolve := BRoot |}.
